@@ -9,13 +9,13 @@ CHECKS = {
          "trusts go/token.Pos ordering and the harness' own reference code table (copied from the book)", "DESIGN.md §3 C16"),
 }
 
-SITE_TXT = "Generated multi-package programs (all statement templates x nestings x contexts x annotation mixes, incl. package-level initialisers, constructor-named functions in other packages, decoys, test and excluded files, a dot-importing file, promoted fields/methods through embedding, method expressions, parenthesised operands/callees/receivers, alias receivers, types inside composite types, const groups, a file whose first uses are suppressed; 6 configurations) are run through the real gogreement binary; every (line, analyzer) is judged against an independent three-valued reference model (MUST code / NEVER / FREE). Exploration: held on the programs generated for the tier and seed, nothing more."
+SITE_TXT = "Generated multi-package programs (all statement templates x nestings x contexts x annotation mixes, incl. package-level initialisers, constructor-named functions in other packages, decoys, test and excluded files, a dot-importing file, promoted fields/methods through embedding, method expressions, parenthesised operands/callees/receivers, alias receivers, types inside composite types, const groups, a file whose first uses are suppressed, embedded plain structs and @immutable holders, annotated alias declarations, var groups and multi-name var specs, an unsafe import; 6 configurations) are run through the real gogreement binary; every (line, analyzer) is judged against an independent three-valued reference model (MUST code / NEVER / FREE). Exploration: held on the programs generated for the tier and seed, nothing more."
 SITE_NOTE = "trusts the Go toolchain (compile gate), the harness' generator and its reference model (written from the property statements and the book; kept honest by clean sweeps over several seeds and by seeded breakages)"
 for pid, an in (("C01","immutabilitychecker"),("C02","constructorchecker"),("C03","testonlychecker"),("C04","packageonlychecker")):
     CHECKS[pid] = ("runtime monitor: diagnostics of %s on generated programs vs per-site reference verdicts" % an, SITE_TXT, SITE_NOTE, "DESIGN.md §2.4, §3 "+pid)
 
 CHECKS["C07"] = ("runtime monitor: one @ignore comment inserted per run of the real binary; diagnostic set vs reference scope model",
-  "For diagnostics of all 16 codes in generated programs, one @ignore comment is inserted (trailing / before statement / before enclosing compound statement / before declaration, attached or detached / before the package clause / trailing the package clause / dangling at the end of a body; in scope and just outside: previous or next line, sibling, other file; 12 code-list shapes) and the real binary is re-run; every (line, analyzer) must match the reference scope model, including TONL01/PKGO01 moving to the next unsuppressed use.",
+  "For diagnostics of all 16 codes in generated programs, one @ignore comment is inserted (trailing / before statement / before enclosing compound statement / before declaration, attached or detached / before the package clause / trailing the package clause or keyword / dangling at the end of a body or of a case clause / trailing a closing line / before the last statement of a clause / at the head of a switch body; in scope and just outside: previous or next line, sibling, other file; 15 code-list shapes, all placement x list pairs walked in a seed-determined permutation) and the real binary is re-run; every (line, analyzer) must match the reference scope model, including TONL01/PKGO01 moving to the next unsuppressed use.",
   SITE_NOTE, "DESIGN.md §3 C07")
 CHECKS["C12"] = ("metamorphic runtime monitor: same program model re-rendered in layout variants; diagnostics compared by stable line id and judged by the layout-blind reference model",
   "Each generated program is run in its base layout and in 8 layout variants (declaration permutation, declarations moved between files, blank/comment lines, anti-formatting, local renaming and compositions); diagnostics keyed by stable line id (TONL01/PKGO01: per package and type) must equal the base rendering and the reference model.",
@@ -62,7 +62,7 @@ CHECKS["C10"] = ("runtime termination monitor: exit status / stderr / analyzer e
   "hang bound on child CPU time (300 s); wall-clock watchdog only yields 'inconclusive'; the std-library overlay workload runs the real analyzers in-process inside a second harness binary built with go1.26.8 (the only toolchain whose GOROOT accepts overlays), not through the gogreement binary; strace fault injection is not built", "DESIGN.md §3 C10")
 
 CHECKS["C05"] = ("runtime differential monitor: IMPL01/02/03 (+ listed methods) of the real binary vs go/types (method sets, types.Identical, import binding) on the same generated module",
-  "Generated (type, interface) pairs over a signature grammar (basic incl. byte/uint8, rune/int32, any/interface{}; named local / imported / same-named from packages with equal names; pointers, slices, arrays, maps, funcs, chans with direction, variadics, aliases; value / pointer receivers; promotion through embedded E, *E and embedded interfaces; interface embedding; T an interface or non-struct; interface in the same package / imported / under alias / from a package whose name differs from its directory; & or not; unimported, missing, non-interface targets, blank / renamed / raw-string imports, alias declarations as T, several annotation lines per type, sibling files binding one qualifier to different packages), each an exact copy or a single-edit mutation of the interface's signatures, are analysed by the real binary; code and listed methods must equal what go/types says about the same module (cross-checked against types.Implements).",
+  "Generated (type, interface) pairs over a signature grammar (basic incl. byte/uint8, rune/int32, any/interface{}; named local / imported / same-named from packages with equal names; pointers, slices, arrays, maps, funcs, chans with direction, variadics, aliases; value / pointer receivers; promotion through embedded E, *E and embedded interfaces; interface embedding; T an interface or non-struct; interface in the same package / imported / under alias / from a package whose name differs from its directory; & or not; unimported, missing, non-interface targets, blank / renamed / raw-string imports, alias declarations as T, several annotation lines per type, sibling files binding one qualifier to different packages, anonymous struct parameter types differing by a tag, the qualifier _), each an exact copy or a single-edit mutation of the interface's signatures, are analysed by the real binary; code and listed methods must equal what go/types says about the same module (cross-checked against types.Implements).",
   "go/types is the reference for 'Go's own type checker'; generics are FREE; a qualifier that matches only the last path element of an import is demanded as IMPL01 and listed as a known finding", "DESIGN.md §3 C05")
 
 PENDING_REASON = "monitor for this property is still under construction in this round (designed in DESIGN.md §3; not claimed until its check is silent on the unchanged tree)"
